@@ -106,7 +106,8 @@ PROPS = {
     },
     "C09": {
         "suites": ["c09"],
-        "level": "proof", "proof_module": "GeoProofs.Props.C09", "theorems": [],
+        "level": "proof", "proof_module": "GeoProofs.Props.C09", "theorems": ["Geo.within_is_contains_swapped", "Geo.feature_transparent", "Geo.feature_center", "Geo.feature_argument_transparent_leaf", "Geo.feature_argument_not_transparent_counterexample", "Geo.simplepoint_as_point_receiver", "Geo.simplepoint_as_point_argument", "Geo.simplepoint_as_point", "Geo.contains_empty_false", "Geo.empty_iff_all_leaves_empty", "Geo.contains_empty_receiver_false", "Geo.intersects_empty_false", "Geo.intersects_empty_receiver_false", "Geo.intersects_empty_false_point", "Geo.contains_implies_rect_covers_partial", "Geo.contains_implies_intersects_partial", "Geo.intersects_implies_rects_meet_partial", "Geo.intersects_empty_false_partial", "Geo.intersects_iff_atoms", "Geo.feature_argument_transparent_intersects", "Geo.intersects_iff_atoms_rect", "Geo.intersects_symm_partial", "Geo.leaf_contains_rect_covers_point_rect", "Geo.leaf_intersects_rects_meet_point_rect", "Geo.leaf_intersects_symm_point_rect", "Geo.leaf_contains_intersects_point_rect", "Geo.leaf_contains_intersects_rect_counterexample", "Geo.pr_not_empty", "Geo.point_rect_contains_implies_rect_covers", "Geo.point_rect_intersects_implies_rects_meet", "Geo.point_rect_intersects_symm", "Geo.point_rect_contains_implies_intersects", "Geo.DispatchFacts.dispatch_table_pinned", "Geo.DispatchFacts.within_forwards_to_contains", "Geo.DispatchFacts.json_wrappers", "Geo.DispatchFacts.feature_forwards"],
+        "translators": [{"name": "dispatch", "out": "Dispatch.lean"}],
         "trivial_sigs": set(),
         "rule": "ordered pairs of objects of all kinds built by the constructors (collections nested, features, empties): six predicate answers "
                 "compared with the model, the algebra laws judged on the implementation (xalgebra), wrapper transparency by answer groups "
@@ -114,7 +115,7 @@ PROPS = {
     },
     "C10": {
         "suites": ["c10"],
-        "level": "proof", "proof_module": "GeoProofs.Props.C10", "theorems": [],
+        "level": "proof", "proof_module": "GeoProofs.Props.C10", "theorems": ["Geo.coll_empty_iff", "Geo.coll_numPoints_sum", "Geo.coll_rect_union", "Geo.coll_leaves", "Geo.searchChildren_spec", "Geo.mem_searchChildren", "Geo.searchChildren_sublist", "Geo.searchChildren_length", "Geo.searchChildren_nodup", "Geo.coll_methods_via_search", "Geo.coll_intersects_iff", "Geo.coll_contains_iff", "Geo.coll_withinRect_iff", "Geo.coll_withinPoint_iff", "Geo.coll_withinLine_iff", "Geo.coll_withinPoly_iff", "Geo.coll_intersectsRect_iff", "Geo.coll_intersectsPoint_iff", "Geo.coll_intersectsLine_iff", "Geo.coll_intersectsPoly_iff", "Geo.indexed_irrelevant_receiver", "Geo.indexed_irrelevant_argument", "Geo.indexed_irrelevant"],
         "trivial_sigs": set(),
         "rule": "collections of all five kinds (0..70 children, nested, empty children) against probe objects, child searches with early stop, "
                 "the composition laws judged by brute force over the children, and the same text parsed under thresholds 0,1,n-1,n,64 with "
@@ -122,7 +123,7 @@ PROPS = {
     },
     "C11": {
         "suites": ["c11"],
-        "level": "proof", "proof_module": "GeoProofs.Props.C11", "theorems": [],
+        "level": "proof", "proof_module": "GeoProofs.Props.C11", "theorems": ["Geo.unionBox_spec", "Geo.Box.TightOver.unique", "Geo.foldRects_tight", "Geo.coll_rect_tight", "Geo.coll_rect_tight_children", "Geo.center_spec", "Geo.Series.empty_iff", "Geo.atom_empty_iff", "Geo.empty_iff", "Geo.empty_line_iff", "Geo.empty_polygon_iff", "Geo.Pt.valid_iff", "Geo.Series.valid_iff", "Geo.Ring.valid_iff", "Geo.boxValid_iff", "Geo.valid_point_iff", "Geo.valid_point_fin", "Geo.valid_line_iff", "Geo.valid_line_iff_positions", "Geo.valid_polygon_iff", "Geo.valid_rect_iff", "Geo.coll_valid_bbox_iff", "Geo.zeroBox_inRange", "Geo.coll_valid_bbox_positions"],
         "trivial_sigs": set(),
         "rule": "objects of all kinds from constructors and from parsed documents on regime E: Empty/Valid/Rect/Center/NumPoints compared with the "
                 "model and judged against the direct min/max specification over the positions of the non-empty parts",
@@ -153,7 +154,8 @@ PROPS = {
     },
     "C13": {
         "suites": ["c13"],
-        "level": "other", "proof_module": "GeoProofs.Props.C13", "theorems": [],
+        "level": "other", "proof_module": "GeoProofs.Props.C13", "theorems": ["Geo.C13.newCircle_normalises", "Geo.C13.newCircle_normalises_nonpos", "Geo.C13.newCircle_haversine", "Geo.C13.newCircle_meters", "Geo.C13.haversine_le_iff_distance_le", "Geo.C13.circle_contains_point_iff", "Geo.C13.circle_contains_point_zero", "Geo.C13.circle_contains_monotone", "Geo.C13.circle_contains_point_wraps", "Geo.C13.circle_contains_circle_sound", "Geo.C13.circle_intersects_circle_iff"],
+        "translators": [{"name": "geoformulas", "out": "GeoFormulas.lean"}],
         "trivial_sigs": set(),
         "rule": "numeric validation on the implementation against an independent 3-D vector distance: probes at r(1+-10^-k) along random bearings, "
                 "point kinds and operand orders, monotonicity, circle-circle relations, JSON round trip, polygon ring for every step count",
@@ -161,14 +163,16 @@ PROPS = {
     },
     "C14": {
         "suites": ["c14"],
-        "level": "other", "proof_module": "GeoProofs.Props.C14", "theorems": [],
+        "level": "other", "proof_module": "GeoProofs.Props.C14", "theorems": ["Geo.C14.rect_lat_bounds", "Geo.C14.rect_lon_bounds", "Geo.C14.rect_pole_widens", "Geo.C14.rect_wrap_widens_general", "Geo.C14.rect_wrap_widens", "Geo.C14.rect_tiny_radius_degenerate", "Geo.C14.lat_diff_le_distance", "Geo.C14.rect_lat_cover_partial", "Geo.C14.rect_lat_cover_counterexample"],
+        "translators": [{"name": "geoformulas", "out": "GeoFormulas.lean"}],
         "trivial_sigs": set(),
         "rule": "numeric validation: for random centres (poles, antimeridian) and radii, disc samples at 64 bearings x 4 distances lie inside RectFromCenter within 1 cm; world bounds; widening; no NaN",
         "explanation": "partial theorems over the reals about the translated RectFromCenter plus numeric validation of longitude coverage and NaN-freedom",
     },
     "C15": {
         "suites": ["c15"],
-        "level": "other", "proof_module": "GeoProofs.Props.C15", "theorems": [],
+        "level": "other", "proof_module": "GeoProofs.Props.C15", "theorems": ["Geo.C15.haversine_symm", "Geo.C15.haversine_self", "Geo.C15.haversine_nonneg", "Geo.C15.haversine_le_one", "Geo.C15.distanceTo_nonneg", "Geo.C15.distanceTo_le_half_circumference", "Geo.C15.distanceTo_symm", "Geo.C15.distanceTo_self", "Geo.C15.distanceToHaversine_strictMono", "Geo.C15.distanceFrom_to_id", "Geo.C15.distanceTo_from_id", "Geo.C15.normalize_idem", "Geo.C15.normalize_haversine", "Geo.C15.normalize_of_lt", "Geo.C15.destination_lat_range", "Geo.C15.destination_lon_range_partial", "Geo.C15.destination_lon_range", "Geo.C15.destination_lon_range_counterexample", "Geo.C15.semi_roundtrip", "Geo.C15.destination_distance"],
+        "translators": [{"name": "geoformulas", "out": "GeoFormulas.lean"}],
         "trivial_sigs": set(),
         "rule": "numeric validation of symmetry, range, destination/distance/bearing round trips, monotone haversine, conversions, normalisation, semicircles",
         "explanation": "theorems over the reals about the translated formulas plus numeric validation of the tolerance clauses",
